@@ -254,7 +254,7 @@ def castMd (md : Option (List MdEntry)) : Except Err (Option (List Md)) :=
   match md with
   | none => .ok none
   | some l =>
-    if l.all (fun e => e == .null) then .ok none
+    if l.all MdEntry.blank then .ok none   -- entries that are all None or empty mappings: no metadata
     else if l.any MdEntry.isOther then .error .tableException
     else .ok (some (l.map MdEntry.toMd))
 
@@ -438,12 +438,11 @@ def mapGet (m : List (String × String)) (k : String) : Option String := m.rever
 /-- `update_ids(id_map, axis='observation', strict=True, inplace=True)` wrapped by `_from_uc`:
 every refusal becomes a ValueError -/
 def renameObs (t : Table Rat) (m : List (String × String)) : Except Err (Table Rat) :=
-  if m.isEmpty then .error .value   -- max() of an empty sequence
-  else match t.obs.mapM (mapGet m) with
-    | none => .error .value
-    | some ids =>
-      if (dedup ids).length ≠ ids.length then .error .value
-      else .ok { t with obs := ids }
+  match t.obs.mapM (mapGet m) with
+  | none => .error .value
+  | some ids =>
+    if (dedup ids).length ≠ ids.length then .error .value
+    else .ok { t with obs := ids }
 
 def fromUc (lines : List (List String)) (fasta : Option (List String)) : Except Err (Table Rat) := do
   let t ← parseUc lines
@@ -628,7 +627,6 @@ def holdsUc (lines : List (List String)) (fasta : Option (List String))
     else
       match fasta.map fastaMap with
       | some (.error _) => chk "uc_reject" (noTable res)
-      | some (.ok []) => none
       | pairs =>
         -- the label of a seed: itself, or what the fasta map says (a later line wins)
         let label : String → Option String := match pairs with
